@@ -730,6 +730,33 @@ FNAMES = ['alpha_12.swc', 'beta_7.swc', '123.swc', 'a_b_12.swc', 'skel-foo.swc',
           'plain.swc', 'a_1.5.swc', '_.swc', 'A(1)_2.swc', 'q+w_8.swc']
 
 
+FMTS_MORE = ['{}_{name}.swc', '{name}_{}.swc', '{}_{id:int}_{name}.swc', '{name}_{}_{}_{id:int}.swc', '{id:int}_{}_{name}.swc',
+             '{name}-{id:int}-{}.swc', '{a}_{b}_{c}.swc', 'n{id:int}_{}x{name}.swc', '{name,id:int}_{}.swc']
+TOKENS = ['a', 'foo', '12', '7', '0', 'x9', 'B', 'neuron', '3', '42', 'left', 'R1']
+
+
+def fill_fmt(r, fmt):
+    """A file name built from the pattern: every `{...}` placeholder replaced by a random separator-free token
+    (typed placeholders get digits), so the pattern matches and every group carries a distinct value."""
+    import re as _re
+    used = set()
+
+    def tok(m):
+        body = m.group(0)[1:-1]
+        for _ in range(20):
+            t = r.choice(TOKENS)
+            if ':int' in body or ':float' in body:
+                t = str(r.randint(0, 999))
+            if t not in used:
+                break
+        used.add(t)
+        return t
+    out = _re.sub(r'\{.*?\}', tok, fmt)
+    if r.random() < 0.1:
+        out = out.replace('.swc', '.SWC' if r.random() < 0.5 else '.txt')
+    return out
+
+
 def gen_write_case(r, small=False):
     rows, meta = G.rand_forest(r, nmax=8 if small else 36, allow_zero_edges=r.random() < 0.2)
     n = len(rows)
@@ -878,8 +905,16 @@ def run(ctx):
         ctx.count('shape', m.get('shape')); ctx.count('labeling', m.get('labeling')); ctx.count('order', m.get('order'))
         ctx.count('rerooted', case.get('reroot') is not None)
         case_write(ctx, case)
-    for k in range(ctx.budget(60, 600)):
-        case = dict(kind='fmt', fmt=r.choice(FMTS), fname=r.choice(FNAMES))
+    # file-name patterns: the full cross product of the hand-written patterns and names (cheap), then names
+    # *generated from* a pattern by filling its placeholders, so that matches with several groups are frequent
+    for f_ in FMTS:
+        for n_ in FNAMES:
+            case = dict(kind='fmt', fmt=f_, fname=n_)
+            ctx.case(case, nontrivial=True)
+            case_fmt(ctx, case)
+    for k in range(ctx.budget(150, 1500)):
+        f_ = r.choice(FMTS + FMTS_MORE)
+        case = dict(kind='fmt', fmt=f_, fname=fill_fmt(r, f_))
         ctx.case(case, nontrivial=True)
         case_fmt(ctx, case)
     for k in range(ctx.budget(60, 700)):
